@@ -5,6 +5,7 @@ import (
 	"os"
 	"path/filepath"
 	"sort"
+	"strings"
 	"testing"
 
 	"verif/internal/h"
@@ -56,4 +57,32 @@ func TestRegress(t *testing.T) {
 		}
 	}
 	run.End(t)
+}
+
+// TestReplayMany re-runs every replay file listed (one path per line) in
+// $VERIF_REPLAY_LIST and prints one verdict line per file. Tooling only.
+func TestReplayMany(t *testing.T) {
+	list := os.Getenv("VERIF_REPLAY_LIST")
+	if list == "" {
+		t.Skip("VERIF_REPLAY_LIST not set")
+	}
+	data, err := os.ReadFile(list)
+	if err != nil {
+		t.Fatal(err)
+	}
+	for _, line := range strings.Split(string(data), "\n") {
+		path := strings.TrimSpace(line)
+		if path == "" {
+			continue
+		}
+		_, msg, err := h.RunReplayFile(path)
+		switch {
+		case err != nil:
+			fmt.Printf("MANY error %s %v\n", path, err)
+		case msg != "":
+			fmt.Printf("MANY reproduced %s\n", path)
+		default:
+			fmt.Printf("MANY clean %s\n", path)
+		}
+	}
 }
